@@ -91,6 +91,25 @@ pub(crate) mod verif_probe {
                     json!({"result": if r.is_ok() { "ok" } else { "err" }, "config_changed": before != after, "kind": kind})
                 }))
             }
+            "auth_query_config" => {
+                // a one-pool configuration whose auth_query triple is partly set, every user with a password: validated, then the pass-through is built
+                let mut cfg = Config::default();
+                cfg.general.validate_config = false;
+                let mut pool = Pool::default();
+                let mut u = User::default(); u.username = "u".to_string(); u.password = Some("p".to_string());
+                pool.users.clear(); pool.users.insert("0".to_string(), u);
+                pool.shards.clear();
+                pool.shards.insert("0".to_string(), Shard { database: "db".to_string(), mirrors: None,
+                    servers: vec![ServerConfig { host: "127.0.0.1".to_string(), port: 5432, role: Role::Primary }] });
+                if v["present"]["auth_query"].as_bool() == Some(true) { pool.auth_query = Some("SELECT 1".to_string()); }
+                if v["present"]["auth_query_user"].as_bool() == Some(true) { pool.auth_query_user = Some("lookup".to_string()); }
+                if v["present"]["auth_query_password"].as_bool() == Some(true) { pool.auth_query_password = Some("lookup".to_string()); }
+                cfg.pools.clear();
+                cfg.pools.insert("db".to_string(), pool.clone());
+                let accepted = cfg.validate().is_ok();
+                let built = std::panic::catch_unwind(std::panic::AssertUnwindSafe(|| crate::auth_passthrough::AuthPassthrough::from_pool_config(&pool).is_some()));
+                Some(json!({"accepted": accepted, "build_panics": match built { Ok(_) => Value::Null, Err(e) => json!(e.downcast_ref::<String>().cloned().or_else(|| e.downcast_ref::<&str>().map(|s| s.to_string())).unwrap_or("panic".to_string())) }}))
+            }
             "reload_diff" => {
                 // startup with pools {a, b}; then the file is rewritten (scenario) and reload_config runs: are the pools that are in force
                 // afterwards the ones of the new file?
